@@ -42,21 +42,22 @@ func init() {
 
 // Event is one entry of the world's event log: a decorated store, device or plugin call
 type Event struct {
-	Seq     int64
-	Inc     int
-	Task    string
-	TaskSer int64
-	Kind    string // tx.Create tx.UpdateStatus prop.Create prop.UpdateStatus cfg.Create cfg.Update cfg.UpdateStatus dev.Set plugin.Validate env.*
-	Target  string
-	OK      bool
-	Err     string
-	Cfg     *configapi.Configuration // what was written (deep copy taken before the call), Version = version after when OK
-	Prop    *configapi.Proposal
-	Tx      *configapi.Transaction
-	Dev     *DevReq
-	Doc     *PluginDoc
-	ReadCfg *configapi.Configuration // dev.Set: the configuration the issuing task had read
-	Note    string
+	Seq      int64
+	StartSeq int64 // writes: sequence number taken just before the real call started
+	Inc      int
+	Task     string
+	TaskSer  int64
+	Kind     string // tx.Create tx.UpdateStatus prop.Create prop.UpdateStatus cfg.Create cfg.Update cfg.UpdateStatus dev.Set plugin.Validate env.*
+	Target   string
+	OK       bool
+	Err      string
+	Cfg      *configapi.Configuration // what was written (deep copy taken before the call), Version = version after when OK
+	Prop     *configapi.Proposal
+	Tx       *configapi.Transaction
+	Dev      *DevReq
+	Doc      *PluginDoc
+	ReadCfg  *configapi.Configuration // dev.Set: the configuration the issuing task had read
+	Note     string
 }
 
 // World is one simulated deployment: one Atomix cluster (the "disk"), one topology, devices,
